@@ -30,16 +30,16 @@ example : ∃ n : Nat, (1 : Int) = (-2) * n + 5 := ⟨2, by decide⟩
     early-exit loops of `simpleNth(Last)ChildMatch` — is: the element's 1-based index among its
     element siblings (of the same type for `-of-type`, from the end for `-last-`) is `a·n + b`
     for some `n ≥ 0`. -/
-theorem nth_matches_spec (a b : Int) (last ofType : Bool) (l : Loc) (hl : LocalOk l) :
+theorem nth_matches_spec (a b : Int) (last ofType : Bool) (l : Loc) :
     selMatch (.nth a b last ofType) l = true ↔
-      l.kind = .elem ∧ ∃ n : Nat, (index last ofType l : Int) = a * n + b :=
-  nth_iff a b last ofType l hl
+      l.kind = .elem ∧ HasParent l ∧ ∃ n : Nat, (index last ofType l : Int) = a * n + b :=
+  nth_iff a b last ofType l
 
 /-- `:only-child` / `:only-of-type`: the loop with its early `return false` says "no other counted sibling" -/
-theorem only_matches_spec (ofType : Bool) (l : Loc) (hl : LocalOk l) :
+theorem only_matches_spec (ofType : Bool) (l : Loc) :
     selMatch (.only ofType) l = true ↔
-      l.kind = .elem ∧ ∀ s ∈ l.prevSibs ++ l.nextSibs, counts ofType l s = false :=
-  only_iff ofType l hl
+      l.kind = .elem ∧ HasParent l ∧ ∀ s ∈ l.prevSibs ++ l.nextSibs, counts ofType l s = false :=
+  only_iff ofType l
 
 /-! ## attribute operators -/
 
@@ -71,8 +71,8 @@ theorem matches_iff_spec_partial {S : Loc → Prop} (hS : DomOk S) :
       have : selMatch (.attr key val op ic) l = attrMatch key val op ic l := by simp [selMatch]
       rw [this, Matches]
       exact attr_iff key val op ic l (by simpa [selOk] using hs)
-    | .nth a b last ofType, _, l, hl => nth_iff a b last ofType l (hS.ok l hl)
-    | .only ofType, _, l, hl => only_iff ofType l (hS.ok l hl)
+    | .nth a b last ofType, _, l, _ => nth_iff a b last ofType l
+    | .only ofType, _, l, _ => only_iff ofType l
     | .empty, _, l, _ => empty_iff l
     | .root, _, l, hl => root_iff l (hS.ok l hl)
     | .never _, _, l, _ => by simp [selMatch, Matches]
@@ -223,8 +223,7 @@ example : ∀ l ∈ allLocs exampleDoc, LocalOk l := by
   rcases hl with rfl | rfl | rfl | rfl | rfl | rfl | rfl
   all_goals
     refine ⟨?_, ?_, other_ok_of_none ?_⟩
-  all_goals simp [Loc.kind, Loc.data, Loc.attrs, Node.kind, Node.data, Node.attrs, Node.children, Loc.parent?,
-      Loc.plug, Loc.children, Loc.childrenAux, Loc.prevSibs, Loc.prevAux, htmlTag, isGoSpace, isDocWs]
+  all_goals simp [Loc.kind, Loc.data, Node.kind, Node.data, Loc.parent?, Loc.plug, Loc.prevSibs, Loc.prevAux, htmlTag]
 
 example : selOk (.combined (.rel .not [.cls [], .attr ['k'] [] .pre true, .attr ['k'] ['x', ' '] .sub true]) .adj (.compound [] [.tag ['b'], .nth (-2) 5 true true])) = true := by
   decide
@@ -248,6 +247,10 @@ example : selMatch .empty ⟨.mk .elem ['p'] [] [.mk .text [' ', '\n'] [] [], .m
 /-- former KF05-7: `:root` needs the Document node as parent -/
 example : selMatch .root ⟨.mk .elem htmlTag [] [], [⟨.elem, ['s', 'v', 'g'], [], [], []⟩]⟩ = false := by decide
 example : selMatch .root ⟨.mk .elem htmlTag [] [], [⟨.doc, [], [], [], []⟩]⟩ = true := by decide
+/-- webrender detaches the root from its Document: a parentless `html` element is the root … -/
+example : selMatch .root ⟨.mk .elem htmlTag [] [], []⟩ = true := by decide
+/-- … and is nobody's first child -/
+example : selMatch (.nth 0 1 false false) ⟨.mk .elem htmlTag [] [], []⟩ = false := by decide
 
 /-- the documented deviation: `[a^=" "]` does not match `<p a="  ">` in the code (no prefix /
     suffix / substring operator matches a blank attribute value), the definition says it matches -/
